@@ -24,7 +24,8 @@ THEOREMS = ['Fsic.C10.' + n for n in [
 RULE = ('every span of each type up to the length bound (ranges with non-zero origin and step, lists and tuples of '
         'strings, mixed hashables where 1 / 1.0 / True are one label, NumPy int and str arrays, pandas Index of '
         'ints / strings, annual and quarterly PeriodIndex, DatetimeIndex, plus spans with repeated labels for the '
-        'correspondence only) x every label of the span, labels equal under == but of another type, absent labels, '
+        'correspondence only) x every label of the span, labels equal under == but of another type, absent labels '
+        '(incl. container-typed ones built from present labels: 1-tuples, n-tuples, frozensets, str / bytes of a label), '
         'pandas partial-string labels x every (start, stop) over labels + absent + None x step in {None,1,2,3} x '
         '{get, set scalar, set list}; after every write the series is read back through attribute, name key, '
         'position, label and label slice; writes through attribute / key / position are read back by label; the same '
@@ -101,10 +102,28 @@ def span_catalogue(n):
 
 
 def safe_eq(a, b):
+    """Python `==` between two LABELS: each side is one object — a tuple / frozenset is never "equal" to a scalar
+    because NumPy would broadcast the comparison over its elements."""
     try:
-        return bool(a == b)
+        r = a == b
     except Exception:  # noqa: BLE001
         return False
+    return bool(r) if isinstance(r, (bool, np.bool_)) else False
+
+
+def container_labels(span):
+    """Absent labels of container type built from labels that ARE in the span: a label is one object, so none of
+    these denotes a period."""
+    ps = list(span)
+    if not ps:
+        return []
+    p0 = ps[0]
+    out = [(p0,), tuple(ps[:2]) if len(ps) > 1 else (p0, p0), frozenset([p0])]
+    if isinstance(p0, str):
+        out.append(p0.encode())
+    elif isinstance(p0, (int, float, np.integer, np.floating)) and not isinstance(p0, bool):
+        out += [str(p0), str(p0).encode()]       # (the str of a pandas Period / Timestamp IS a spelling of that label)
+    return out
 
 
 def positions_of(span_list, label):
@@ -132,7 +151,8 @@ def span_cases(flavour, tag, spec, n, equal, absent, partial, steps):
     span = cc.make_span(spec)
     own = [L(x) for x in span]
     eq = [L(x) for x in equal]
-    ab = [L(x) for x in absent]
+    cont = [L(x) for x in container_labels(span)]
+    ab = [L(x) for x in absent[:2]] + cont[:2] + [L(x) for x in absent[2:]] + cont[2:]
     pa = [L(x) for x in partial]
     singles = own + eq + ab + pa
     base = {'flavour': flavour, 'strict': False, 'span': spec, 'tag': tag}
@@ -157,7 +177,7 @@ def span_cases(flavour, tag, spec, n, equal, absent, partial, steps):
     ops.append({'op': 'getLabelSlice', 'name': 'X', 'a': None, 'b': None, 'step': None})
     yield {**base, 'ops': ops, 'part': 'single'}
     # B: slices — every (start, stop) over labels + equal + absent + partial + None, every step
-    ends = [None] + own + eq[:1] + ab[:2] + pa
+    ends = [None] + own + eq[:1] + ab[:3] + pa
     for a in ends:
         ops = setup_ops(n)
         for b in ends:
@@ -205,7 +225,7 @@ def sequence_cases(flavour, tag, spec, n, equal, absent, partial, steps):
         span, span2 = cc.make_span(spec), cc.make_span(target)
         own = [L(x) for x in span]
         labs = own + [L(x) for x in span2 if json.dumps(L(x)) not in {json.dumps(o) for o in own}]
-        labs += [L(x) for x in absent[:1]] + [L(x) for x in partial]
+        labs += [L(x) for x in absent[:1]] + [L(x) for x in container_labels(span)[:1]] + [L(x) for x in partial]
         ends = [None] + labs
 
         def accesses(newv):
@@ -436,7 +456,8 @@ class Oracle:
             if p[0] == 'skip' or name not in before:
                 return
             if p[0] == 'absent':
-                self.expect_keyerror(obj, op, out, before, f'label {dec_label(item["label"])!r} is not in the span')
+                self.expect_keyerror(obj, op, out, before, f'label {dec_label(item["label"])!r} is not in the span',
+                                     [item['label']])
                 return
             i = p[1]
             if op == 'getLabel':
@@ -464,7 +485,8 @@ class Oracle:
             if st <= 0:
                 return
             if any(e[0] == 'absent' for e in ends):
-                self.expect_keyerror(obj, op, out, before, 'a slice end is not in the span')
+                self.expect_keyerror(obj, op, out, before, 'a slice end is not in the span',
+                                     [item.get('a'), item.get('b')])
                 return
             # a partial-string end denotes several periods: the slice starts at the first / ends at the last of them
             lo = ends[0][1] if ends[0][0] == 'pos' else (ends[0][1][0] if ends[0][1] else None)
@@ -501,9 +523,13 @@ class Oracle:
         f = lambda x: 'None' if x is None else repr(dec_label(x))
         return f'{f(item.get("a"))}:{f(item.get("b"))}:{item.get("step")}'
 
-    def expect_keyerror(self, obj, op, out, before, why):
+    def expect_keyerror(self, obj, op, out, before, why, labels=()):
         if out.lstrip('!') != 'KeyError':
-            self.violate('missing-label-no-keyerror', f'{op}: {why}, expected KeyError, got {out}')
+            # a tuple / frozenset label that "matched" has been taken apart and compared element by element
+            key = ('tuple-label-broadcast' if any(l is not None and l[0] in ('tuple', 'frozenset') and
+                                                  self.pos(l)[0] == 'absent' for l in labels)
+                   else 'missing-label-no-keyerror')
+            self.violate(key, f'{op}: {why}, expected KeyError, got {out}')
         after = cc.snapshot(obj)
         if any(not cc.same_array(after[x], before[x]) for x in before):
             self.violate('missing-label-changed-state', f'{op}: {why}, but a series changed')
